@@ -3,7 +3,7 @@ CONSTANTS
   MaxBlocks = 3
   MaxTxs = 1
   Sizes = {1}
-  Times = {1, 2}
+  Times = {0, 2}
   Eras = {0, 1}
 SPECIFICATION MSpec
 INVARIANTS AccIsStats TypesOk Emit
